@@ -468,3 +468,79 @@ func init() {
 		return Tuple{I64(n), Iface{}}
 	})
 }
+
+// bytes.HasPrefix / HasSuffix / TrimPrefix / TrimSuffix with a concrete affix over blobs: fully
+// byte-level blobs are compared term by term; for abstract (document) blobs a one-byte affix is
+// decided from the first / last byte of the serialisation, which is what "is this a batch?" needs.
+func init() {
+	affix := func(g *G, a []Value, suffix bool, what string) (Bool, *Blob, int) {
+		if isNilBytes(a[0]) {
+			p, _ := g.asBlob(a[1]).ConcreteBytes()
+			return Bool{C: len(p) == 0}, nil, 0
+		}
+		b := g.asBlob(a[0])
+		p, ok := g.asBlob(a[1]).ConcreteBytes()
+		if isNilBytes(a[1]) {
+			p, ok = nil, true
+		}
+		if !ok {
+			g.inconclusive(what + " with a symbolic affix")
+		}
+		if len(p) == 0 {
+			return Bool{C: true}, b, 0
+		}
+		if ts, ok := b.byteTerms(); ok {
+			if len(ts) < len(p) {
+				return Bool{C: false}, b, len(p)
+			}
+			c := TrueT
+			for i := range p {
+				t := ts[i]
+				if suffix {
+					t = ts[len(ts)-len(p)+i]
+				}
+				c = And(c, Eq(t, BVConst(uint64(p[i]), 8)))
+			}
+			return mkBool(c), b, len(p)
+		}
+		if len(p) != 1 {
+			g.inconclusive(what + " of an abstract payload with a multi-byte affix")
+		}
+		n := b.Len(g).(Int)
+		if len(b.Segs) == 0 || g.branch(mkBool(Eq(n.Term(64), BVConst(0, 64)))) {
+			return Bool{C: false}, b, 1
+		}
+		idx := Int{C: 0}
+		if suffix {
+			idx = mkInt(BVBin("bvsub", n.Term(64), BVConst(1, 64)))
+		}
+		cell := b.IndexAddr(g, idx).(*Value)
+		by := (*cell).(Int)
+		return mkBool(Eq(by.Term(8), BVConst(uint64(p[0]), 8))), b, 1
+	}
+	reg("bytes.HasPrefix", func(g *G, fr *Frame, fn *ssa.Function, a []Value) Value {
+		r, _, _ := affix(g, a, false, "bytes.HasPrefix")
+		return r
+	})
+	reg("bytes.HasSuffix", func(g *G, fr *Frame, fn *ssa.Function, a []Value) Value {
+		r, _, _ := affix(g, a, true, "bytes.HasSuffix")
+		return r
+	})
+	reg("bytes.TrimPrefix", func(g *G, fr *Frame, fn *ssa.Function, a []Value) Value {
+		r, b, n := affix(g, a, false, "bytes.TrimPrefix")
+		if b == nil || n == 0 || !g.branch(r) {
+			return a[0]
+		}
+		lo := Int{C: uint64(n)}
+		return b.SliceOp(g, &lo, nil)
+	})
+	reg("bytes.TrimSuffix", func(g *G, fr *Frame, fn *ssa.Function, a []Value) Value {
+		r, b, n := affix(g, a, true, "bytes.TrimSuffix")
+		if b == nil || n == 0 || !g.branch(r) {
+			return a[0]
+		}
+		ln := b.Len(g).(Int)
+		hi := mkInt(BVBin("bvsub", ln.Term(64), BVConst(uint64(n), 64)))
+		return b.SliceOp(g, nil, &hi)
+	})
+}
